@@ -451,7 +451,15 @@ ArithV(op, x, y) ==
 (* to the concatenation of the per-node results).                           *)
 RECURSIVE EvalSegs(_, _, _), ApplySeg(_, _, _), ApplySel(_, _, _), ApplySels(_, _, _, _),
           FilterKids(_, _, _, _), FVal(_, _, _), Descend(_, _, _), DescendKids(_, _, _, _), ApplyAll(_, _, _, _),
-          HasErr(_, _, _)
+          HasErr(_, _, _), OpenCmpValue(_, _, _)
+
+(* [data] fixes that an ordering comparison of operands that are not two     *)
+(* numbers or two strings does not select (Compare: "F"); whether its VALUE  *)
+(* is false or "nothing" only shows when it is itself compared or passed to  *)
+(* a function ((@.x < 1) == false), which no document describes: don't care. *)
+OpenCmpValue(e, c, r) == e[1] = "cmp" /\ e[2] \in {"<", "<=", ">", ">="} /\
+                           LET x == FVal(e[3], c, r)  y == FVal(e[4], c, r) IN
+                           x = DCV \/ y = DCV \/ ~((IsNum(x) /\ IsNum(y)) \/ (x[1] = "str" /\ y[1] = "str"))
 
 (* filter expression value for current node c: a JSON value or DCV *)
 FVal(e, c, r) ==
@@ -490,6 +498,7 @@ FVal(e, c, r) ==
     [] e[1] = "cmp" ->
          LET x == FVal(e[3], c, r)  y == FVal(e[4], c, r) IN
          IF x = DCV \/ y = DCV THEN DCV
+         ELSE IF OpenCmpValue(e[3], c, r) \/ OpenCmpValue(e[4], c, r) THEN DCV
          ELSE LET t == Compare(e[2], x, y) IN IF t = "D" THEN DCV ELSE JBool(t = "T")
     [] e[1] = "not" -> LET x == FVal(e[2], c, r) IN IF x = DCV THEN DCV ELSE JBool(~Truthy(x))
     [] e[1] = "and" -> LET x == FVal(e[2], c, r)  y == FVal(e[3], c, r) IN
@@ -503,7 +512,7 @@ FVal(e, c, r) ==
          (* path that addresses nothing, passed where every value is acceptable (the search value of contains on an *)
          (* array), is described nowhere: don't care.  ERRV reads as null here, see HasErr.                         *)
          LET a == [i \in 1..Len(e[3]) |-> FVal(e[3][i], c, r)] IN
-         IF \E i \in 1..Len(a) : a[i] = DCV THEN DCV
+         IF \E i \in 1..Len(a) : a[i] = DCV \/ OpenCmpValue(e[3][i], c, r) THEN DCV
          ELSE IF e[2] = "contains" /\ IsArrLike(a[1]) /\ e[3][2][1] = "q" /\ IsSingular(e[3][2][3]) /\ a[2] = JNull
                  /\ ValuesOf(EvalSegs(e[3][2][3], <<IF e[3][2][2] = "cur" THEN c ELSE MkNode(<<>>, r)>>, r)) = <<>> THEN DCV
          ELSE LET v == FnApply(e[2], a) IN IF v = ERRV THEN JNull ELSE v
